@@ -120,6 +120,10 @@ def object_digest(capellambse, mdl, elem, with_backrefs: bool) -> dict:
         d["layer"] = None
     except Exception as e:  # noqa: BLE001
         d["layer"] = f"!{type(e).__name__}"
+    try:
+        d["find_references"] = sorted(f"{getattr(o, 'uuid', '?')}.{attr}[{idx}]" for o, attr, idx in mdl.find_references(obj))
+    except Exception as e:  # noqa: BLE001
+        d["find_references"] = f"!{type(e).__name__}"
     for name in relation_names(capellambse, type(obj)):
         acc = getattr(type(obj), name)
         if not with_backrefs and isinstance(acc, capellambse.model.ReferenceSearchingAccessor):
@@ -206,12 +210,13 @@ SCAN_BASED = {"ElementRelationAccessor", "RequirementsRelationAccessor"}
 SEARCH_XT = [None, "LogicalFunction", "LogicalComponent", "SystemFunction", "PhysicalComponent", "FunctionalExchange", "Class", "Part"]
 
 
-def compare_layouts(ctx: Ctx, out: Outcome, spec: dict, mono, frag, lay, objs_budget: int, with_backrefs: bool, tag: str):
+def compare_layouts(ctx: Ctx, out: Outcome, spec: dict, mono, frag, lay, objs_budget: int, with_backrefs: bool, tag: str,
+                    extra_ids: list[str] | None = None):
     """digest equality monolithic vs fragmented; returns nothing, reports findings"""
     capellambse, helpers, core = _imports()
     els_m = {e.get("id"): e for e in semantic_elements(mono)}
     els_f = {e.get("id"): e for e in semantic_elements(frag)}
-    roots = set(lay.fragments.values())
+    roots = {r for r in lay.fragments.values() if r in els_m and r in els_f}
     if set(els_m) != set(els_f):
         out.find("load|element-set-differs", f"{len(set(els_m) ^ set(els_f))} ids differ between the layouts",
                  {"kind": "layout", "layout": spec})
@@ -234,6 +239,14 @@ def compare_layouts(ctx: Ctx, out: Outcome, spec: dict, mono, frag, lay, objs_bu
         for x in list(els_m[r].iterdescendants())[:6]:
             if x.get("id"):
                 near.add(x.get("id"))
+    # referrers and targets of references that cross a file boundary, and whatever an edit touched
+    xl = cross_file_links(lay, els_m)
+    for r in roots:
+        near |= {a for a, t in xl if t == r}
+    ctx.rng.shuffle(xl)
+    for a, t in xl[:6]:
+        near |= {a, t}
+    near |= {i for i in (extra_ids or []) if i in els_m}
     rest = [i for i in ids if i not in near]
     ctx.rng.shuffle(rest)
     chosen = sorted(near) + rest[: max(0, objs_budget - len(near))]
@@ -249,14 +262,24 @@ def compare_layouts(ctx: Ctx, out: Outcome, spec: dict, mono, frag, lay, objs_bu
         if dm != df:
             keys = [k for k in dm if dm.get(k) != df.get(k)] + [k for k in df if k not in dm]
             k = keys[0]
-            cls = "parent" if k == "parent" else ("layer" if k == "layer" else "relation")
+            cls = "parent" if k == "parent" else ("layer" if k == "layer" else ("find_references" if k == "find_references" else "relation"))
+            if cls == "find_references":
+                # which referrers differ? if each of them holds a placeholder among its direct children the cause is
+                # the child-attribute scan of find_references not crossing the placeholder
+                a, b = dm.get(k), df.get(k)
+                holders = {e.get("id") for e in els_f.values() if any(c.get("href") is not None for c in e)}
+                diff = set(a) ^ set(b) if isinstance(a, list) and isinstance(b, list) else {"?"}
+                cls += "-differs|" + ("referrer-holds-a-placeholder" if diff and all(x.split(".")[0] in holders for x in diff) else "other")
+                out.find(f"api|{cls}", f"{els_m[i].get(XSI_T)} {i}: {k} monolithic={str(dm.get(k))[:1200]} fragmented={str(df.get(k))[:1200]}",
+                         {"kind": "object", "layout": spec, "id": i, "what": k})
+                continue
             if cls == "relation":
                 acc = getattr(type(mono.by_uuid(i)), k[1:], None)
                 cls += "-differs|" + type(acc).__name__ + "|" + raw_read_cause(capellambse, els_m, roots)
-                out.find(f"api|{cls}", f"{els_m[i].get(XSI_T)} {i}: {k} monolithic={str(dm.get(k))[:120]} fragmented={str(df.get(k))[:120]}",
+                out.find(f"api|{cls}", f"{els_m[i].get(XSI_T)} {i}: {k} monolithic={str(dm.get(k))[:1200]} fragmented={str(df.get(k))[:1200]}",
                          {"kind": "object", "layout": spec, "id": i, "what": k})
                 continue
-            out.find(f"api|{cls}-differs", f"{els_m[i].get(XSI_T)} {i}: {k} monolithic={str(dm.get(k))[:120]} fragmented={str(df.get(k))[:120]}",
+            out.find(f"api|{cls}-differs", f"{els_m[i].get(XSI_T)} {i}: {k} monolithic={str(dm.get(k))[:1200]} fragmented={str(df.get(k))[:1200]}",
                      {"kind": "object", "layout": spec, "id": i, "what": k})
     # raw loader navigation for every element
     for i in ids:
@@ -305,9 +328,74 @@ def compare_layouts(ctx: Ctx, out: Outcome, spec: dict, mono, frag, lay, objs_bu
 # ------------------------------------------------------------------ edits + save
 
 
-def edit_script(ctx: Ctx, lay, mono) -> list[dict]:
-    """edits that touch the inside of fragments: renames, a created child, a cross-file reference, a deletion"""
+LIST_ACCESSORS = ("DirectProxyAccessor", "RoleTagAccessor")
+
+
+def list_attr_holding(capellambse, pobj, xelem) -> str | None:
+    """name of the coupled child list of `pobj` that contains the element (used to move / delete it via the API)"""
+    for name in relation_names(capellambse, type(pobj)):
+        acc = getattr(type(pobj), name)
+        if type(acc).__name__ not in LIST_ACCESSORS or getattr(acc, "aslist", None) is None:
+            continue
+        try:
+            lst = getattr(pobj, name)
+        except Exception:  # noqa: BLE001
+            continue
+        if any(getattr(o, "_element", None) is xelem for o in lst):
+            return name
+    return None
+
+
+def cross_file_links(lay, els) -> list[tuple[str, str]]:
+    """(referrer id, target id) for reference attributes whose owner and target live in different files"""
+    out = []
+    for i, e in els.items():
+        for k, v in e.attrib.items():
+            if k in ("id", "href", XSI_T) or "#" not in v:
+                continue
+            toks = fragmenter.split_link_tokens(v)
+            if not toks:
+                continue
+            for _, _, t in toks:
+                if t in els and lay.owner.get(i) and lay.owner.get(t) and lay.owner[i] != lay.owner[t]:
+                    out.append((i, t))
+    return out
+
+
+def move_candidates(els, roots: set[str], prefer_ancestors: bool):
+    """(x, new parent) pairs: x is not a fragment root, its parent has a same-typed twin elsewhere that is
+    neither x nor inside x. With prefer_ancestors only x that are proper ancestors of a fragment root."""
+    by_type: dict[str, list[str]] = {}
+    for i, e in els.items():
+        by_type.setdefault(e.get(XSI_T) or "", []).append(i)
+    xs = []
+    if prefer_ancestors:
+        for r in roots:
+            if r in els:
+                xs += [a.get("id") for a in els[r].iterancestors() if a.get("id")]
+    else:
+        xs = list(els)
+    out = []
+    for x in dict.fromkeys(xs):
+        e = els.get(x)
+        if e is None or x in roots or e.getparent() is None or not e.getparent().get("id") or not e.get(XSI_T):
+            continue
+        p = e.getparent()
+        inside = {d.get("id") for d in e.iter() if isinstance(d.tag, str)}
+        for q in by_type.get(p.get(XSI_T) or "", []):
+            if q != p.get("id") and q not in inside:
+                out.append((x, q))
+    return out
+
+
+def edit_script(ctx: Ctx, lay, mono, hints: dict | None = None) -> list[dict]:
+    """an edit history that touches fragment boundaries: renames, a created child, reference lists in both
+    directions, MOVES (of an ancestor of a placeholder, of an element inside a fragment), a DELETION of an
+    element that is referenced across a file boundary"""
+    capellambse, _, _ = _imports()
+    hints = hints or {}
     els = {e.get("id"): e for e in semantic_elements(mono)}
+    roots = set(lay.fragments.values())
     inside = [i for i, f in lay.owner.items() if f != lay.main and i in els and els[i].get("name")]
     outside = [i for i, f in lay.owner.items() if f == lay.main and i in els and els[i].get("name")]
     script: list[dict] = []
@@ -318,11 +406,54 @@ def edit_script(ctx: Ctx, lay, mono) -> list[dict]:
     if fnlike:
         script.append({"op": "create_fn", "id": ctx.rng.choice(fnlike), "uuid": "00000000-c06c-4c06-8c06-%012d" % ctx.rng.randrange(10**12),
                        "name": "verif created"})
-    pkgs = [i for i in inside + outside if (els[i].get(XSI_T) or "").endswith(("FunctionPkg", "ComponentPkg"))]
     if inside and outside:
         script.append({"op": "setrefs", "id": ctx.rng.choice(outside), "targets": ctx.rng.sample(inside, min(3, len(inside)))})
-        script.append({"op": "setrefs", "id": ctx.rng.choice(inside), "targets": ctx.rng.sample(outside, min(2, len(outside))) + ctx.rng.sample(inside, 1)})
-    del pkgs
+        own = ctx.rng.choice(inside)
+        others = [i for i in inside if i != own]  # no self-references (an element does not reference itself)
+        script.append({"op": "setrefs", "id": own, "targets": ctx.rng.sample(outside, min(2, len(outside))) + ctx.rng.sample(others, min(1, len(others)))})
+
+    # moves
+    moved: set[str] = set()
+    wanted = []
+    if hints.get("move"):
+        wanted.append(tuple(hints["move"]))
+    anc = move_candidates(els, roots, prefer_ancestors=True)
+    if anc:
+        wanted.append(ctx.rng.choice(anc))
+    ins = [(x, q) for x, q in move_candidates({i: els[i] for i in inside}, roots, prefer_ancestors=False)]
+    if ins:
+        wanted.append(ctx.rng.choice(ins))
+    for x, q in wanted[:3]:
+        if x in moved or x not in els or q not in els:
+            continue
+        sub = {d.get("id") for d in els[x].iter() if isinstance(d.tag, str)}
+        if q in sub or moved & sub or any(m in els and x in {a.get("id") for a in els[m].iter()} for m in moved):
+            continue
+        name = list_attr_holding(capellambse, mono.by_uuid(els[x].getparent().get("id")), els[x])
+        if name is None or not hasattr(type(mono.by_uuid(q)), name):
+            continue
+        script.append({"op": "move", "id": x, "to": q, "attr": name})
+        moved.add(x)
+
+    # a deletion of an element that is referenced from another file (not a fragment root, no fragment below it)
+    cands = []
+    if hints.get("delete"):
+        cands.append(hints["delete"])
+    xl = cross_file_links(lay, els)
+    ctx.rng.shuffle(xl)
+    cands += [t for _, t in xl[:20]]
+    for t in cands:
+        e = els.get(t)
+        if e is None or t in roots or e.getparent() is None or not e.getparent().get("id"):
+            continue
+        sub = {d.get("id") for d in e.iter() if isinstance(d.tag, str)}
+        if sub & roots or sub & moved or any(st.get("id") in sub or st.get("to") in sub or set(st.get("targets", [])) & sub for st in script):
+            continue
+        name = list_attr_holding(capellambse, mono.by_uuid(e.getparent().get("id")), e)
+        if name is None:
+            continue
+        script.append({"op": "delete", "id": t, "parent": e.getparent().get("id"), "attr": name})
+        break
     return script
 
 
@@ -337,6 +468,10 @@ def apply_script(mdl, script: list[dict]) -> list[str]:
                 obj.functions.create(name=st["name"], uuid=st["uuid"])
             elif st["op"] == "setrefs":
                 obj.applied_property_values = [mdl.by_uuid(t) for t in st["targets"]]
+            elif st["op"] == "move":
+                getattr(mdl.by_uuid(st["to"]), st["attr"]).append(obj)
+            elif st["op"] == "delete":
+                getattr(mdl.by_uuid(st["parent"]), st["attr"]).remove(obj)
             log.append("ok")
         except Exception as e:  # noqa: BLE001
             log.append(f"!{type(e).__name__}: {e}"[:160])
@@ -361,18 +496,69 @@ def files_owner_map(lay_root: pathlib.Path, project: str) -> dict[str, str]:
     return out
 
 
+def expected_owner(mono, lay) -> dict[str, str]:
+    """from the monolithic twin (after the same edits): the owner of an element is the file of its nearest
+    cut ancestor-or-self, else the main file"""
+    import itertools
+
+    rootfile = {i: f for f, i in lay.fragments.items()}
+    out = {}
+    for e in semantic_elements(mono):
+        f = lay.main
+        for a in itertools.chain([e], e.iterancestors()):
+            if a.get("id") in rootfile:
+                f = rootfile[a.get("id")]
+                break
+        out[e.get("id")] = f
+    return out
+
+
+def dangling(mdl, ids: list[str]) -> int:
+    """raw scan: reference attributes that still mention a deleted id"""
+    n = 0
+    for frag, tree in mdl._loader.trees.items():
+        if posixpath.splitext(frag.parts[-1])[1] not in SEMANTIC:
+            continue
+        for e in tree.root.iter():
+            if isinstance(e.tag, str):
+                for k, v in e.attrib.items():
+                    if k != "id" and any(("#" + i) in v for i in ids):
+                        n += 1
+    return n
+
+
 def edits_and_save(ctx: Ctx, out: Outcome, spec: dict, mono, frag, lay_m, lay_f, tag: str):
     capellambse, helpers, core = _imports()
-    script = edit_script(ctx, lay_f, mono)
+    script = edit_script(ctx, lay_f, mono, spec.get("hints"))
     if not script:
         return
     lm = apply_script(mono, script)
     lf = apply_script(frag, script)
     case = {"kind": "edits", "layout": spec, "script": script}
+    ops = sorted({st["op"] for st in script})
     out.case(("edits", tag, len(script)), None, nontrivial=True)
+    for op in ops:
+        out.hit("edit." + op)
     if lm != lf:
-        out.find("edit|outcome-differs", f"edit outcomes monolithic={lm} fragmented={lf}", case)
+        bad = next(st["op"] for st, a, b in zip(script, lm, lf) if a != b)
+        out.find(f"edit|outcome-differs|{bad}", f"edit outcomes monolithic={lm} fragmented={lf}", case)
         return
+    expected = expected_owner(mono, lay_f)
+    # (1) still in memory: navigation, relations, searches and back-references after the edit history
+    o1 = Outcome()
+    compare_layouts(ctx, o1, spec, mono, frag, _with_owner(lay_f, expected), objs_budget=40, with_backrefs=False,
+                    tag=tag + "+edited", extra_ids=[i for st in script for i in [st.get("id"), st.get("to"), st.get("parent")] if i])
+    out.evaluations += o1.evaluations
+    out.distinct |= o1.distinct
+    for f in o1.findings:
+        out.find("edited|" + f.signature, f.what + f" [after {ops}]", case)
+    deleted = [st["id"] for st, r in zip(script, lf) if st["op"] == "delete" and r == "ok"]
+    if deleted:
+        dm, df = dangling(mono, deleted), dangling(frag, deleted)
+        if df != dm:
+            out.find("edit|delete-leaves-dangling-reference", f"after deleting {deleted}: {df} attributes still mention it in the fragmented "
+                     f"layout, {dm} in the monolithic one", case)
+    # (2) save, files, reload
     try:
         mono.save()
         frag.save()
@@ -380,13 +566,8 @@ def edits_and_save(ctx: Ctx, out: Outcome, spec: dict, mono, frag, lay_m, lay_f,
         out.find("save|raises", f"save raised {type(e).__name__}: {e}"[:200], case)
         return
     owners = files_owner_map(lay_f.root, lay_f.project)
-    expected = dict(lay_f.owner)
-    for st in script:
-        if st["op"] == "create_fn" and "ok" in lf[script.index(st)]:
-            expected[st["uuid"]] = lay_f.owner[st["id"]]
     wrong = {i: (owners.get(i), f) for i, f in expected.items() if owners.get(i) != f}
     extra = {i: f for i, f in owners.items() if i not in expected}
-    # reference elements created by edits (none here) would show up in `extra`
     if wrong:
         i, (got, want) = next(iter(wrong.items()))
         out.find("save|element-not-in-owning-fragment", f"after save {len(wrong)} elements are in the wrong file, e.g. {i}: in {got}, owner {want}", case)
@@ -395,8 +576,7 @@ def edits_and_save(ctx: Ctx, out: Outcome, spec: dict, mono, frag, lay_m, lay_f,
     mono2 = capellambse.MelodyModel(lay_m.aird, resources=dict(lay_m.resources))
     frag2 = capellambse.MelodyModel(lay_f.aird, resources=dict(lay_f.resources))
     o2 = Outcome()
-    compare_layouts(ctx, o2, spec, mono2, frag2, lay_f if not any(s["op"] == "create_fn" for s in script) else _with_owner(lay_f, expected),
-                    objs_budget=40, with_backrefs=False, tag=tag + "+edits")
+    compare_layouts(ctx, o2, spec, mono2, frag2, _with_owner(lay_f, expected), objs_budget=40, with_backrefs=False, tag=tag + "+edits")
     out.evaluations += o2.evaluations
     out.distinct |= o2.distinct
     for f in o2.findings:
@@ -445,6 +625,10 @@ def gen_specs(ctx: Ctx) -> list[dict]:
         if hit is not None:
             specs.append({"model": model, "resources": res, "cuts": [[hit.get("id"), "fragments/witness.capellafragment"]],
                           "main_rel": None, "airdfragments": False, "raw_nonascii": False, "small": model == SMALL[0][0], "witness": True})
+    # layouts built for edit histories: (a) a fragment below an element that can be moved to a same-typed twin
+    # of its parent, (b) a fragment around an element that is referenced from outside the fragment
+    for model, res in (SMALL[: ctx.pick(2, 4)] + LARGE[: ctx.pick(1, 3)]):
+        specs += edit_witness_specs(ctx, model, res, ctx.pick(2, 6))
     large = LARGE[: ctx.pick(1, 5)]
     for model, res in large:
         for _ in range(ctx.pick(2, 5)):
@@ -453,6 +637,60 @@ def gen_specs(ctx: Ctx) -> list[dict]:
             s["small"] = False
             specs.append(s)
     return specs
+
+
+def edit_witness_specs(ctx: Ctx, model: str, res: dict, n: int) -> list[dict]:
+    from lxml import etree
+
+    src = links.data_dir() / model
+    main, _ = fragmenter.find_main(src)
+    root = etree.parse(str(src.parent / main)).getroot()
+    els = {e.get("id"): e for e in root.iter() if isinstance(e.tag, str) and e.get("id")}
+    cuttable = lambda e: e is not root and e.get("id") and e.get(XSI_T) and e.getparent() is not None  # noqa: E731
+    out: list[dict] = []
+    used: set[str] = set()
+    # (a) move x (to a same-typed twin of its parent) while a proper descendant of x lives in its own fragment
+    pairs = move_candidates(els, set(), prefer_ancestors=False)
+    ctx.rng.shuffle(pairs)
+    k = 0
+    for x, q in pairs:
+        desc = [d for d in els[x].iterdescendants() if isinstance(d.tag, str) and cuttable(d) and len(d) > 0]
+        if not desc:
+            continue
+        d = ctx.rng.choice(desc)
+        used.clear()
+        out.append({"model": model, "resources": res, "cuts": [[d.get("id"), links.gen_frag_path(ctx.rng, used)]], "main_rel": None,
+                    "airdfragments": False, "raw_nonascii": False, "small": (model, res) in SMALL, "hints": {"move": [x, q]}})
+        k += 1
+        if k >= n:
+            break
+    # (b) delete t, which sits inside a fragment and is referenced from outside of it
+    xrefs = []
+    for i, e in els.items():
+        for kk, v in e.attrib.items():
+            if kk in ("id", XSI_T) or not v.startswith("#"):
+                continue
+            for _, _, t in fragmenter.split_link_tokens(v) or []:
+                if t in els and t != i:
+                    xrefs.append((i, t))
+    ctx.rng.shuffle(xrefs)
+    k = 0
+    for r, t in xrefs:
+        a = els[t].getparent()
+        while a is not None and cuttable(a):
+            inside = {d.get("id") for d in a.iter() if isinstance(d.tag, str)}
+            if r not in inside:
+                break
+            a = a.getparent()
+        if a is None or not cuttable(a) or r in {d.get("id") for d in a.iter() if isinstance(d.tag, str)}:
+            continue
+        used.clear()
+        out.append({"model": model, "resources": res, "cuts": [[a.get("id"), links.gen_frag_path(ctx.rng, used)]], "main_rel": None,
+                    "airdfragments": False, "raw_nonascii": False, "small": (model, res) in SMALL, "hints": {"delete": t}})
+        k += 1
+        if k >= n:
+            break
+    return out
 
 
 def run_layout(ctx: Ctx, out: Outcome, spec: dict, si: int, model_cases: list | None):
@@ -477,7 +715,7 @@ def run_layout(ctx: Ctx, out: Outcome, spec: dict, si: int, model_cases: list | 
         from props import c06_model
 
         c06_model.collect(ctx, out, spec, mono, frag, lay_f, model_cases, tag)
-    if si % ctx.pick(3, 2) == 0:
+    if spec.get("hints") or si % ctx.pick(3, 2) == 0:
         edits_and_save(ctx, out, spec, mono, frag, lay_m, lay_f, tag)
     shutil.rmtree(base, ignore_errors=True)
 
